@@ -94,6 +94,7 @@ def run(tier, seed):
     files = []
     meta = []
     discarded = 0
+    poison = 0
     totals = {k: 0 for k in rewrite.KINDS}
     jobs = [(seed, fi, j, data) for fi, data in enumerate(base) for j in range(per)]
     for fi, data in enumerate(base):
@@ -110,6 +111,12 @@ def run(tier, seed):
                 totals[k] += v
             files.append(('r%d_%d' % (fi, j), new))
             meta.append((fi, j, kinds, counts))
+            # interference: the same reader thread is also given damaged inputs (this file cut at a random point, often inside a
+            # nested unknown value).  They fail, as they must; what the valid files read like must not depend on it
+            rc = gen.seeded(seed, 'C08cut', fi, j)
+            if len(new) > 40 and rc.random() < 0.7:
+                files.append(('t%d_%d' % (fi, j), new[:rc.randrange(20, len(new))]))
+                poison += 1
     wd = runner.workdir('c08')
     try:
         dumps, crashes = pipeline.read_back(files, 'c08', wd, tables=True)
@@ -132,7 +139,7 @@ def run(tier, seed):
                                     {'original_hex': fbytes['o%d' % fi][:4000].hex(), 'rewritten_hex': fbytes['r%d_%d' % (fi, j)][:6000].hex(), 'rewrites': counts}))
     finally:
         runner.cleanup(wd)
-    obs = dict(valid_files=len(base), rewritten_files_compared=compared, rewrites_applied_per_kind=totals, discarded_by_rewriter_self_check=discarded,
+    obs = dict(valid_files=len(base), rewritten_files_compared=compared, damaged_inputs_interleaved_in_the_same_reader_threads=poison, rewrites_applied_per_kind=totals, discarded_by_rewriter_self_check=discarded,
                file_sizes_max=max(len(d) for d in base) if base else 0)
     cov = dict(evaluations=len(meta), distinct_nontrivial=len(meta),
                rule='valid exporter outputs re-encoded by random compositions of {definite<->indefinite containers, chunked / indefinite strings, non-minimal heads, map-member permutation, unknown integer keys with '
